@@ -375,8 +375,8 @@ MT_SCEN_ARGS = {
     "prodcons": (lambda r: ["--threads", r.choice([2, 3, 4]), "--rounds", r.choice([20, 40, 80]), "--live", r.choice([8, 32, 64])],
                  lambda r: ["--threads", r.choice([3, 5, 8]), "--rounds", r.choice([400, 1200]), "--live", r.choice([64, 1024, 4096])]),
     "heapdel":  (lambda r: ["--threads", r.choice([2, 3, 4]), "--rounds", r.choice([8, 16, 40])],                      lambda r: ["--threads", r.choice([3, 5, 8]), "--rounds", r.choice([400, 1500])]),
-    "exit":     (lambda r: ["--threads", r.choice([2, 3, 4]), "--ops", r.choice([40, 100, 200]), "--rounds", r.choice([2, 3, 5]), "--exit-mode", r.choice([0, 1, 2])],
-                 lambda r: ["--threads", r.choice([4, 6, 8]), "--ops", r.choice([3000, 8000]), "--rounds", r.choice([4, 8]), "--exit-mode", r.choice([0, 2])]),
+    "exit":     (lambda r: ["--threads", r.choice([2, 3, 4, 4]), "--ops", r.choice([40, 100, 200]), "--rounds", r.choice([2, 3, 5]), "--exit-mode", r.choice([0, 1, 2]), "--subprocs", r.choice([0, 0, 2])],
+                 lambda r: ["--threads", r.choice([4, 6, 8]), "--ops", r.choice([3000, 8000]), "--rounds", r.choice([4, 8]), "--exit-mode", r.choice([0, 2]), "--subprocs", r.choice([0, 2])]),
     "arena":    (lambda r: ["--threads", r.choice([2, 3, 4]), "--ops", r.choice([30, 60, 120]), "--arena-blocks", r.choice([96, 100, 128, 130, 160])],
                  lambda r: ["--threads", r.choice([4, 6, 8]), "--ops", r.choice([400, 1500]), "--arena-blocks", r.choice([96, 100, 130, 160])]),
 }
@@ -443,6 +443,7 @@ def mt_cov(cases):
         "points_and_switches_per_function": top,
         "allocations": sm("mt", "allocs"), "local_frees": sm("mt", "local_frees"), "remote_frees": sm("mt", "remote_frees"), "handovers": sm("mt", "sends"), "pattern_verifications": sm("mt", "verified"),
         "events_replayed_by_lifetime_checker": sm("mt", "events"), "collects": sm("mt", "collects"), "thread_exits": sm("mt", "thread_exits"), "heap_deletes_racing_frees": sm("mt", "heap_deletes"),
+        "allocations_checked_against_the_sub_process_rule": sm("mt", "subproc_allocs_checked"),
         "arena_claims": sm("mt", "claims"), "arena_claims_failed_for_space": sm("mt", "claims_failed"),
         "allocator_counters": core.merge_counts(cases, "mi"),
         "option_settings": sorted(set(c.meta.get("config", "") for c in cases)),
